@@ -9,31 +9,31 @@ E(s, ms, fee, xk, xv, eth, nonce, grp) ==
 \* universe U9 (behaviour generation): two plain senders, one eth sender, a group, the three expiry kinds
 TabU9 == <<
   E("A", {},    1, "n", 0, FALSE, 0, 0),    \* 1
-  E("A", {},    2, "h", 2, FALSE, 0, 0),    \* 2  expires for the block at height 2
+  E("A", {},    12, "h", 2, FALSE, 0, 0),   \* 2  expires for the block at height 2; pays the 10x tier
   E("B", {},    1, "t", 1, FALSE, 0, 0),    \* 3  expires once the header time passes tick 1
-  E("A", {"B"}, 2, "n", 0, FALSE, 0, 2),    \* 4  group: head A, member B
-  E("B", {},    2, "n", 0, FALSE, 0, 0),    \* 5
+  E("A", {"B"}, 3, "n", 0, FALSE, 0, 2),    \* 4  group: head A, member B
+  E("B", {},    11, "n", 0, FALSE, 0, 0),   \* 5  pays the 10x tier
   E("X", {},    1, "n", 0, TRUE,  0, 0),    \* 6  eth nonce 0
-  E("X", {},    2, "n", 0, TRUE,  1, 0),    \* 7  eth nonce 1
+  E("X", {},    10, "n", 0, TRUE,  1, 0),   \* 7  eth nonce 1
   E("X", {},    1, "h", 3, TRUE,  2, 0),    \* 8  eth nonce 2, expires for the block at height 3
   E("X", {},    1, "n", 0, TRUE,  1, 0)     \* 9  eth nonce 1 again (another transaction)
 >>
 \* universe U6 (exhaustive checking)
 TabU6 == <<
   E("A", {},    1, "n", 0, FALSE, 0, 0),    \* 1
-  E("A", {"B"}, 2, "h", 2, FALSE, 0, 2),    \* 2  group, a member expires for the block at height 2
+  E("A", {"B"}, 25, "h", 2, FALSE, 0, 2),   \* 2  group, a member expires for the block at height 2; pays the 10x tier
   E("B", {},    1, "t", 1, FALSE, 0, 0),    \* 3
   E("X", {},    1, "n", 0, TRUE,  0, 0),    \* 4  eth nonce 0
-  E("X", {},    2, "n", 0, TRUE,  1, 0),    \* 5  eth nonce 1
+  E("X", {},    10, "n", 0, TRUE,  1, 0),   \* 5  eth nonce 1
   E("X", {},    1, "n", 0, TRUE,  1, 0)     \* 6  eth nonce 1 again
 >>
 \* universe U5 (quick exhaustive run)
 TabU5 == <<
   E("A", {},    1, "n", 0, FALSE, 0, 0),    \* 1
-  E("A", {"B"}, 2, "h", 2, FALSE, 0, 2),    \* 2  group, a member expires for the block at height 2
+  E("A", {"B"}, 20, "h", 2, FALSE, 0, 2),   \* 2  group, a member expires for the block at height 2; pays the 10x tier
   E("B", {},    2, "t", 0, FALSE, 0, 0),    \* 3  expires once the header time passes tick 0
   E("X", {},    1, "n", 0, TRUE,  0, 0),    \* 4  eth nonce 0
-  E("X", {},    2, "n", 0, TRUE,  1, 0)     \* 5  eth nonce 1
+  E("X", {},    10, "n", 0, TRUE,  1, 0)    \* 5  eth nonce 1
 >>
 TwoDefects == {"sig", "blkfrom"}
 SendersABX == {"A", "B", "X"}
